@@ -294,8 +294,45 @@ func runFilters(w io.Writer, stats map[string]int) {
 	}
 	owners := [][]string{nil, {"ReplicaSet"}, {"DaemonSet"}, {"ReplicaSet", "DaemonSet"}, {"Job"}}
 	annos := []map[string]string{nil, {"kubernetes.io/config.source": "file"}, {"kubernetes.io/config.source": "api"}, {"x": "file"}}
+	// every ordered pair of expressions on the group's own key, once inside one term and once as two alternative terms
+	// (In next to NotIn on the same value, the same expression twice, ...): with a reduced set of owners and annotations
+	var pairAffs []*v1.Affinity
+	for i := range exprs {
+		for j := range exprs {
+			if exprs[i].Key != key || exprs[j].Key != key {
+				continue
+			}
+			pairAffs = append(pairAffs,
+				&v1.Affinity{NodeAffinity: &v1.NodeAffinity{RequiredDuringSchedulingIgnoredDuringExecution: &v1.NodeSelector{NodeSelectorTerms: []v1.NodeSelectorTerm{
+					{MatchExpressions: []v1.NodeSelectorRequirement{exprs[i], exprs[j]}}}}}},
+				&v1.Affinity{NodeAffinity: &v1.NodeAffinity{RequiredDuringSchedulingIgnoredDuringExecution: &v1.NodeSelector{NodeSelectorTerms: []v1.NodeSelectorTerm{
+					{MatchExpressions: []v1.NodeSelectorRequirement{exprs[i]}}, {MatchExpressions: []v1.NodeSelectorRequirement{exprs[j]}}}}}})
+		}
+	}
 	affFilter := controller.NewPodAffinityFilterFunc(key, val)
 	defFilter := controller.NewPodDefaultFilterFunc()
+	for _, sel := range selectors {
+		for _, aff := range pairAffs {
+			for _, own := range [][]string{nil, {"DaemonSet"}} {
+				for _, an := range []map[string]string{nil, {"kubernetes.io/config.source": "file"}} {
+					p := &WPod{Name: "p", NS: "ns", NodeSelector: sel, Affinity: aff, OwnerKinds: own, Annotations: an, Phase: "Running"}
+					pod := p.materialise()
+					obs := map[string]interface{}{}
+					func() {
+						defer func() {
+							if pn := recover(); pn != nil {
+								obs["panic"] = fmt.Sprint(pn)
+							}
+						}()
+						obs["affinity"] = affFilter(pod)
+						obs["default"] = defFilter(pod)
+					}()
+					emitLine(w, map[string]interface{}{"op": "filter", "key": key, "value": val, "pod": protoPod(pod), "obs": obs})
+					stats["filter:pod-pairs"]++
+				}
+			}
+		}
+	}
 	for _, sel := range selectors {
 		for _, aff := range affs {
 			for _, own := range owners {
@@ -520,6 +557,7 @@ func awsOpCase(r *Rng, fleet bool, w io.Writer) string {
 		}
 		sim.asgs[g.Name] = g
 		cfg := cloudprovider.NodeGroupConfig{Name: "g0", GroupID: "asg0"}
+		cfg.AWSConfig.Lifecycle = r.pick("", "", "on-demand", "spot") // read by the fleet path only; must not matter anywhere else
 		kind := r.pick("increase", "delete", "delete")
 		// fleet mode: now and then several scale-ups in a row on the same node group, most of them failing (the provider
 		// counts consecutive failures and gives up at the third)
